@@ -252,7 +252,7 @@ def run(ck, tier):
         "vint_values": "all v < %d; 2^(7k)-1,2^(7k),2^(7k)+1 k=1..9; 2^(8j)-1,2^(8j),2^(8j)+1 j=1..7; 2^63; 2^64-2; 2^64-1; %d seeded" % (small, nrand),
         "vint_decoder_inputs": "256 first bytes x {00, FF, mixed} fill x lengths 0..11; every proper prefix of every boundary encoding",
         "types": "%d monomorphic types, nesting depth <= 2, tuples up to 6" % len(types_rt),
-        "values": "3-10 representative values per type (incl. vec<u8>/string of length %s)" % ("127,128,300,16383,16384" if thorough else "127,128"),
+        "values": "3-10 representative values per type (incl. vec<u8>/string of length %s)" % ("127,128,129,300,1000" if thorough else "127,128"),
         "mutations": "every truncation; every position x {00,01,02,7F,80,C0,FF}%s; both ends only for encodings > 48 bytes" % (" with and without trailing bytes" if thorough else ""),
         "raw_inputs": "all 256 bool bytes / Option tags; UTF-8: all single bytes, 15 lead bytes x all second bytes%s, 3/4-byte boundary families, 37 hand-picked; non-minimal and oversized length prefixes; unsorted and duplicate set/map entries" % (", all two-byte strings" if thorough else ""),
         "readers": "SliceReader, std::io::Cursor, ReadAdapter (chunk patterns [256],[1],[2],[3],[1,3],[5,1]), read_from_bytes; release profile%s" % (" and dev profile (debug assertions, overflow checks)" if thorough else ""),
